@@ -259,7 +259,11 @@ def _update_opset_imports(
     graph_or_function: ir.Graph | ir.Function, delta: ReplacementSubgraph
 ):
     imports = graph_or_function.opset_imports
-    for domain, version in delta.used_opsets:
+    # used_opsets is a set: iterate it in sorted order so that the order in which new
+    # domains are imported does not depend on hash randomization.
+    for domain, version in sorted(
+        delta.used_opsets, key=lambda opset: (opset[0], opset[1] is not None, opset[1] or 0)
+    ):
         if domain not in imports:
             # use 1 as default version if not explicitly specified
             imports[domain] = version if version is not None else 1
